@@ -589,6 +589,17 @@ func (c *Client) verifyLightBlock(ctx context.Context, newLightBlock *types.Ligh
 		if err != nil {
 			return fmt.Errorf("can't get first light block: %w", err)
 		}
+		// Backwards verification only links headers by hash. The light block that is going to be
+		// stored must therefore be checked on its own: its validator set has to be the one the
+		// header names and its commit has to be a commit of that set for that header. Otherwise
+		// later verification would start from a validator set the trusted header does not commit to.
+		if err = newLightBlock.ValidateBasic(c.chainID); err != nil {
+			return ErrInvalidHeader{err}
+		}
+		if err = newLightBlock.ValidatorSet.VerifyCommitLight(c.chainID, newLightBlock.Commit.BlockID,
+			newLightBlock.Height, newLightBlock.Commit); err != nil {
+			return ErrInvalidHeader{err}
+		}
 		err = c.backwards(ctx, firstBlock.Header, newLightBlock.Header)
 
 	// Verifying between first and last trusted light block
@@ -973,6 +984,14 @@ func (c *Client) backwards(
 			return c.backwards(ctx, verifiedHeader, newPrimarysBlock.Header)
 		}
 		verifiedHeader = interimHeader
+	}
+
+	// The header reached by following the hash links must be the header that was asked for: the
+	// loop fetches the target height again and the provider need not answer the same way twice.
+	if !bytes.Equal(verifiedHeader.Hash(), newHeader.Hash()) {
+		return ErrInvalidHeader{
+			fmt.Errorf("header #%d reached by backwards verification (%X) is not the header to verify (%X)",
+				newHeader.Height, verifiedHeader.Hash(), newHeader.Hash())}
 	}
 
 	return nil
